@@ -8,7 +8,8 @@ EXPLANATION = ("C05: in sub0_recv_cb every hand-off to a context is dominated by
                "context; subscribe and unsubscribe look topics up with the same exact (length and bytes) comparison; "
                "unsubscribe re-filters the whole queue keeping the matching messages in order; a full buffer costs exactly one "
                "message; pub0_sock_send never parks or starts the aio and completes it on every path. Whether sub0_matches is "
-               "prefix matching is a statement about memcmp over runtime bytes and is not decided.")
+               "prefix matching is a statement about memcmp over runtime bytes and is not decided."
+               " Also: the subscription scan looks at every topic until one matches (R5).")
 
 
 def rule_r1(ctx):
